@@ -19,6 +19,8 @@ EXPLANATION = (
     "every CFG path passes a call of stoGcMarkRange before the case is left. G3 who-may-call over every unit of the "
     "configuration: stoGcMark and stoGcSweep are called only by stoGcMarkAndSweep, that only by stoGc, and in stoGc the call "
     "is dominated by the test-and-return of the static inGc flag and by inGc = true. "
+    "G4 the cells that hold the sweep's free-piece index (B-tree nodes and list heads, cut from whole pages by stoAllocInner) "
+    "lie inside their pages: cell count is the floor of page bytes over cell size (same obligation as C10 T-carve). "
     "Not decided: completeness of conservative marking for every heap shape or schedule.")
 
 FLUSH = {"setjmp", "_setjmp", "__sigsetjmp", "sigsetjmp", "__builtin_unwind_init", "getcontext"}
@@ -154,5 +156,10 @@ def run(tier, only=None):
     rep = common.Report("C09", tier, EXPLANATION)
     check_config(rep, "compiler", common.compiler_units())
     check_config(rep, "runtime", common.runtime_units())
+    # G4: the free-piece index that the sweep fills (B-tree nodes, list heads) lives in cells cut by stoAllocInner;
+    # the obligation itself is C10's T-carve
+    from . import c10_store_tables
+    for config in ("compiler", "runtime"):
+        c10_store_tables.check_carving(rep, config, rule="G4")
     rep.assumptions.append("setjmp stores the callee-saved registers in its buffer (the idiom the collector relies on)")
     return rep
